@@ -1475,7 +1475,7 @@ HOF_SOURCE = """
         (cond ((and (null? l) (null? m)) (reverse acc))
               ((or (null? l) (null? m)) (error "map: lists of different length"))
               (else (let ((v (f (car l) (car m)))) (loop (cdr l) (cdr m) (cons v acc))))))))
-(define (for-each f l) (if (null? l) (void) (begin (f (car l)) (for-each f (cdr l)))))
+(define (for-each f l) (if (null? l) void (begin (f (car l)) (for-each f (cdr l)))))
 (define (filter f l)
   (let loop ((l l) (acc (quote ())))
     (if (null? l) (reverse acc) (if (f (car l)) (loop (cdr l) (cons (car l) acc)) (loop (cdr l) acc)))))
